@@ -237,7 +237,55 @@ func oracleC05(c *GCase) *ev.Failure {
 	if !proto.Equal(back, dyn) {
 		return ev.Failf(sigOf("C05", "value-differs", mt), "reference decodes the output %.64x as %.200v, the original is %.200v", b, back, dyn)
 	}
-	return checkPresence("C05", mt, b, dyn, "")
+	if f := checkPresence("C05", mt, b, dyn, ""); f != nil {
+		return f
+	}
+	return oracleC05StaleChild(c)
+}
+
+// oracleC05StaleChild: the same value, but one child message that has no fast-marshal code of its own (a well-known
+// type) was sized by its runtime earlier - as happens when the child object was part of another message that was
+// marshaled before - and has grown since.  The parent is fresh.  The output must still be the current contents.
+func oracleC05StaleChild(c *GCase) *ev.Failure {
+	mt, _, m := c.build()
+	if mt.Info.Runtime != "gv2" && mt.Info.Runtime != "gv1gen" {
+		return nil
+	}
+	child := runtimeTouchPlainChildOf(mt, m, len(c.Value), len(c.Value)%2 == 1)
+	if child == nil {
+		return nil
+	}
+	pm, ok := child.(proto.Message)
+	if !ok || !growScalar(pm.ProtoReflect()) {
+		return nil
+	}
+	if curRec != nil {
+		curRec.Class("plain-child-sized-earlier-and-grown-since")
+	}
+	var want *dynamicpb.Message
+	if f := guard("C05", mt, "bridge", func() { want = ToDynamic(m, mt.Desc) }); f != nil {
+		return f
+	}
+	if proto.CheckInitialized(want) != nil {
+		return nil
+	}
+	var b []byte
+	var err error
+	if f := guard("C05", mt, "Marshal", func() { b, err = m.(fastMsg).Marshal() }); f != nil {
+		f.Detail += " (a well-known-type child had been sized by its runtime and has grown since)"
+		return f
+	}
+	if err != nil {
+		return ev.Failf(sigOf("C05", "marshal-error", mt), "Marshal failed after a child sized earlier had grown: %v", err)
+	}
+	back := dynamicpb.NewMessage(mt.Desc)
+	if err := (proto.UnmarshalOptions{Resolver: dynTypes}).Unmarshal(b, back); err != nil {
+		return ev.Failf(sigOf("C05", "reference-rejects-output-after-child-grew", mt), "a well-known-type child was sized by its runtime earlier and has grown since: the reference cannot parse the parent's output %.64x: %v", b, err)
+	}
+	if !proto.Equal(back, want) {
+		return ev.Failf(sigOf("C05", "value-differs-after-child-grew", mt), "a well-known-type child was sized by its runtime earlier and has grown since: the reference decodes %.64x as %.200v, the contents are %.200v", b, back, want)
+	}
+	return nil
 }
 
 // ---------- shared case stream ----------
@@ -313,7 +361,7 @@ func TestC04(t *testing.T) {
 }
 
 func TestC05(t *testing.T) {
-	rec := ev.New("C05", ruleValues+"oracle: reference (dynamicpb, schema only) decode of Marshal() output equals the original incl. presence and unknown bytes, and at every nesting level the set of field numbers on the wire equals the set of populated fields (no phantom defaults, nothing dropped); non-trivial as C04")
+	rec := ev.New("C05", ruleValues+"oracle: reference (dynamicpb, schema only) decode of Marshal() output equals the original incl. presence and unknown bytes, and at every nesting level the set of field numbers on the wire equals the set of populated fields (no phantom defaults, nothing dropped); for Google-runtime types with a well-known-type child the same value is marshaled once more after that child object was sized by its runtime and then grown in place (the parent being fresh); non-trivial as C04")
 	defer rec.Write()
 	useRecorder(rec)
 	defer func() { t.Log(rec.Summary()); fmt.Print(rec.SurveyReport()) }()
